@@ -271,5 +271,21 @@ PROPS["C20"] = dict(PROPS["C01"], lean=["Gengo.Props.C20"],
                "predicate values of every object of the real universes are compared with the model, and an oracle compares them with "
                "go/types (containment of reference kinds, types.Comparable for v2).")
 
+PROPS["C11"] = dict(PROPS["C01"], lean=["Gengo.Props.C11"],
+    level_text="Kernel-checked on the model of v2 loading (userRequested, fullyProcessed, addPkgToUniverse with its recursion) for every "
+               "world and every request list: after LoadPackages+NewUniverse exactly the requested packages are fully scanned; an "
+               "incremental LoadPackagesTo keeps every earlier request and every scanned package, scans exactly the new requests in "
+               "addition and never a mere dependency - so every split and order of a request set ends with the same set of scanned and "
+               "stub packages as one combined load; visiting a package unknown to the type checker fails; the input list is the sorted "
+               "request set. PARTIAL: that the content recorded for a scanned package does not depend on the order is C01's walk invariant "
+               "(proved on the prototype model, port to the full model in progress); v1's Builder is modelled and compared but has no "
+               "separate theorems. The complete universes of random splits/orders are compared on the real loaders with the model and "
+               "with one combined load.",
+    rule="generated modules of 1..5 packages with import DAGs (some packages only dependencies); a non-empty request set is split at random "
+         "into an initial load and ordered incremental loads (v2: LoadPackages + NewUniverse + LoadPackagesTo in a scratch module; v1: "
+         "AddDir + FindTypes + AddDirectoryTo in a scratch GOPATH); the final universe is compared with the model, with the universe of one "
+         "combined load, and judged for completeness of requested packages, reachability of dependency content, stability of objects and "
+         "the reported input list; every tenth case requests a missing or unparsable package and must get an error.")
+
 # properties not claimed, with the reason (kept current by hand)
 NOT_APPLICABLE = {}
